@@ -148,8 +148,16 @@ def jobs(tier):
              {"space": "S2-expr", "expression depth<=": 1, "positions": s2.ExprGen.POSITIONS}, 600, raising=True),
         _job("S2-ctl-c1-raising-tests", lambda ch: s2.CtlGen(ch, 1, 2, 1), 2, {"space": "S2-ctl", "compounds<=": 1}, 600, raising=True),
     ]
+    # bodies in which a compound statement may END an arm (no marker statement after it): a loop region / an if as the
+    # last predecessor of a join is what region-predecessor re-targeting in the restructurer depends on
+    barejobs = [
+        _job("S2-ctl-c2-d2-t1-bare", lambda ch: s2.CtlGen(ch, 2, 2, 1, trail="never"), 3,
+             {"space": "S2-ctl", "compounds<=": 2, "depth<=": 2, "terminators<=": 1, "marker after a compound": "never"}, 900),
+        _job("S2-ctl-c3-core-kinds-bare", lambda ch: s2.CtlGen(ch, 3, 2, 1, kinds=["if", "ifelse", "while"], trail="never"), 4,
+             {"space": "S2-ctl", "compounds<=": 3, "kinds": ["if", "ifelse", "while"], "depth<=": 2, "terminators<=": 1, "marker after a compound": "never"}, 1800),
+    ]
     if tier == "quick":
-        return raisejobs + [forjob, loopjob, passjob, passjob2,
+        return raisejobs + barejobs + [forjob, loopjob, passjob, passjob2,
             _job("S2-ctl-c2-d2-t1", lambda ch: s2.CtlGen(ch, 2, 2, 1), 3,
                  {"space": "S2-ctl", "compounds<=": 2, "depth<=": 2, "terminators<=": 1, "tests": "external calls"}, 900),
             _job("S2-ctl-c1-argtests", lambda ch: s2.CtlGen(ch, 1, 2, 2, arg_tests=True), 2,
@@ -159,7 +167,9 @@ def jobs(tier):
             _job("S2-expr-d2-quick-inner", lambda ch: s2.ExprGen(ch, 2), 3,
                  {"space": "S2-expr", "expression depth<=": 2, "inner ops": s2.ExprGen.INNER_QUICK, "positions": s2.ExprGen.POSITIONS}, 900),
         ]
-    return raisejobs + [forjob, loopjob, passjob, passjob2,
+    return raisejobs + barejobs + [forjob, loopjob, passjob, passjob2,
+        _job("S2-ctl-c3-choose-trailing-markers", lambda ch: s2.CtlGen(ch, 3, 2, 1, kinds=["if", "ifelse", "while", "for"], trail="choose"), 4,
+             {"space": "S2-ctl", "compounds<=": 3, "kinds": ["if", "ifelse", "while", "for"], "depth<=": 2, "terminators<=": 1, "marker after a compound": "optional"}, 1800, required=False),
         _job("S2-ctl-c3-core-kinds", lambda ch: s2.CtlGen(ch, 3, 2, 1, kinds=["if", "ifelse", "while"]), 3,
              {"space": "S2-ctl", "compounds<=": 3, "kinds": ["if", "ifelse", "while"], "depth<=": 2, "terminators<=": 1}, 1800),
         _job("S2-ctl-c2-d3-t2", lambda ch: s2.CtlGen(ch, 2, 3, 2), 3,
